@@ -6,6 +6,7 @@ require (
 	github.com/fxamacker/cbor v1.5.1
 	github.com/multiformats/go-multihash v0.2.3
 	github.com/privacybydesign/gabi v0.0.0
+	github.com/sirupsen/logrus v1.9.4
 )
 
 require (
@@ -14,7 +15,6 @@ require (
 	github.com/klauspost/cpuid/v2 v2.3.0 // indirect
 	github.com/mr-tron/base58 v1.3.0 // indirect
 	github.com/multiformats/go-varint v0.1.0 // indirect
-	github.com/sirupsen/logrus v1.9.4 // indirect
 	github.com/spaolacci/murmur3 v1.1.0 // indirect
 	github.com/x448/float16 v0.8.4 // indirect
 	golang.org/x/crypto v0.53.0 // indirect
